@@ -30,11 +30,11 @@ type MultiRequest struct {
 	Script vplug.Script      `json:"script"`
 	Rounds [][]RunSpec       `json:"rounds"`
 	// RePrepareBetween prepares the same text a third time between rounds (and discards it).
-	RePrepareBetween bool        `json:"re_prepare_between,omitempty"`
+	RePrepareBetween bool `json:"re_prepare_between,omitempty"`
 	// ConcurrentPrepares prepares the text this many times at the same time first (C17).
-	ConcurrentPrepares int `json:"concurrent_prepares,omitempty"`
-	Plan             vsched.Plan `json:"plan,omitempty"`
-	WatchdogMs       int         `json:"watchdog_ms,omitempty"`
+	ConcurrentPrepares int         `json:"concurrent_prepares,omitempty"`
+	Plan               vsched.Plan `json:"plan,omitempty"`
+	WatchdogMs         int         `json:"watchdog_ms,omitempty"`
 }
 
 // RunResult is the outcome of one run.
